@@ -87,3 +87,148 @@ Proof.
   split; [intros [t p]; unfold good_evaluate; cbn [fst snd]; f_equal; lia|].
   intros l1 l2. split; [reflexivity|]. split; reflexivity.
 Qed.
+
+(* ==================================================================================================================
+   Round 2: arbitrary limits per leg, limits expressed through the API, equivalence up to rounding, reevaluate_at_end
+   ================================================================================================================== *)
+From SG Require Import Proofs.DriverLegs Proofs.DriverFinish.
+
+(* the decidable test the harness evaluates (through the entry point) on every leg it generates *)
+Theorem C14_limits_growb_sound : forall l1 l2, limits_growb l1 l2 = true <-> limits_grow l1 l2.
+Proof. exact limits_growb_spec. Qed.
+
+(* the loop returns the state at the first position of the uninterrupted trajectory that satisfies the rule *)
+Theorem C14_run_is_first_stop_on_trajectory :
+  forall (St : Type) (evaluate refine : St -> St) (observe : St -> obs) lim n s,
+  run St evaluate refine observe lim n s =
+    option_map (fun k => state_at St evaluate refine k s) (first_stop lim (traj St evaluate refine observe n s)).
+Proof. exact run_is_first_stop_on_trajectory. Qed.
+
+(* a history of legs with ARBITRARY limits (growing or not), under the idempotence hypothesis, follows the trajectory of the
+   uninterrupted run: the state after the last leg is the trajectory state at the position, and the history arrays /
+   event trace are the ones, that `legs_on_stream` computes from the uninterrupted observation stream (this is what the
+   correspondence compares with the interrupted runs of the implementation) *)
+Theorem C14_legs_follow_trajectory :
+  forall (St : Type) (evaluate refine : St -> St) (observe : St -> obs),
+  (forall s, evaluate (evaluate s) = evaluate s) ->
+  forall legs s d s' d' N,
+    legs <> [] -> run_legs St evaluate refine observe legs s d = Some (s', d') -> (legs_fuel legs <= N)%nat ->
+    exists p, legs_on_stream (map fst legs) (traj St evaluate refine observe N s) d = Some (p, d') /\
+              s' = state_at St evaluate refine p s.
+Proof. exact legs_follow_trajectory. Qed.
+Print Assumptions C14_legs_follow_trajectory.
+
+(* if every leg's limits grow to those of the LAST leg (not necessarily from leg to leg), the history ends in the state of
+   the single run with the last limits - state level and stream level *)
+Theorem C14_legs_grow_end_where_single_run_ends :
+  forall (St : Type) (evaluate refine : St -> St) (observe : St -> obs),
+  (forall s, evaluate (evaluate s) = evaluate s) ->
+  forall legs lf s d s' d',
+    legs <> [] -> last (map fst legs) lf = lf -> all_growb (map fst legs) lf = true ->
+    run_legs St evaluate refine observe legs s d = Some (s', d') ->
+    run St evaluate refine observe lf (legs_fuel legs) s = Some s'.
+Proof. exact legs_grow_end_where_single_run_ends. Qed.
+Theorem C14_legs_grow_end_at_single_stop : forall legs lf os d p d',
+  legs <> [] -> last legs lf = lf -> all_growb legs lf = true ->
+  legs_on_stream legs os d = Some (p, d') -> first_stop lf os = Some p.
+Proof. exact legs_grow_end_at_single_stop. Qed.
+Print Assumptions C14_legs_grow_end_where_single_run_ends.
+
+(* "continuing with larger limits", however the caller expresses them: explicit arguments, arguments left to their
+   defaults (which differ between the two entry points), tol = 0.  perform(a1); continue(a2) ends where the single
+   perform(a3) ends for EVERY a3 that resolves to the limits a2 resolves to *)
+Theorem C14_resume_equals_uninterrupted_args :
+  forall (St : Type) (evaluate refine : St -> St) (observe : St -> obs),
+  (forall s, evaluate (evaluate s) = evaluate s) ->
+  forall a1 a2 a3 n m s s1 s2,
+    limits_growb (resolve_perform a1) (resolve_continue a2) = true ->
+    resolve_perform a3 = resolve_continue a2 ->
+    run St evaluate refine observe (resolve_perform a1) n s = Some s1 ->
+    run St evaluate refine observe (resolve_continue a2) m s1 = Some s2 ->
+    exists k, (k <= n + m)%nat /\ run St evaluate refine observe (resolve_perform a3) k s = Some s2.
+Proof. exact resume_equals_uninterrupted_args. Qed.
+(* a continuation with tol = 0 after a tolerance stop: the limits grow whatever the first tolerance t >= 0 was *)
+Theorem C14_tolerance_zero_grows : forall t am ax M,
+  (0 <= t)%Qc -> match ax with Some x => x <= M | None => False end ->
+  limits_growb (resolve_perform (mkArgs (Some t) am ax)) (resolve_continue (mkArgs (Some 0%Qc) am (Some M))) = true.
+Proof. exact tolerance_zero_grows. Qed.
+
+(* equivalence up to rounding + reevaluate_at_end (evaluate_final_combi after each stop, flags arbitrary) *)
+Theorem C14_resume_equals_uninterrupted_upto :
+  forall (St : Type) (evaluate refine finish : St -> St) (observe : St -> obs) (R : St -> St -> Prop) (L : limits -> Prop),
+  (forall s, R s s) -> (forall s t, R s t -> R t s) -> (forall s t u, R s t -> R t u -> R s u) ->
+  (forall s t, R s t -> R (evaluate s) (evaluate t)) -> (forall s t, R s t -> R (refine s) (refine t)) ->
+  (forall lim s t, L lim -> R s t -> stop_now lim (observe s) = stop_now lim (observe t)) ->
+  (forall s, R (evaluate (evaluate s)) (evaluate s)) -> (forall s, R (finish (evaluate s)) (evaluate s)) ->
+  forall b1 b2 b3 l1 l2 n m s s1 s2,
+    limits_grow l1 l2 -> L l2 ->
+    run_fin St evaluate refine finish observe b1 l1 n s = Some s1 ->
+    run_fin St evaluate refine finish observe b2 l2 m s1 = Some s2 ->
+    exists k z, (k <= n + m)%nat /\ run_fin St evaluate refine finish observe b3 l2 k s = Some z /\ R s2 z.
+Proof. exact resume_equals_uninterrupted_upto. Qed.
+Theorem C14_resume_chain_equals_uninterrupted_upto :
+  forall (St : Type) (evaluate refine finish : St -> St) (observe : St -> obs) (R : St -> St -> Prop) (L : limits -> Prop),
+  (forall s, R s s) -> (forall s t, R s t -> R t s) -> (forall s t u, R s t -> R t u -> R s u) ->
+  (forall s t, R s t -> R (evaluate s) (evaluate t)) -> (forall s t, R s t -> R (refine s) (refine t)) ->
+  (forall lim s t, L lim -> R s t -> stop_now lim (observe s) = stop_now lim (observe t)) ->
+  (forall s, R (evaluate (evaluate s)) (evaluate s)) -> (forall s, R (finish (evaluate s)) (evaluate s)) ->
+  forall lims bf b3 lf nf s s1 s2,
+    L lf -> all_grow_to_f lims lf ->
+    run_fin_chain St evaluate refine finish observe lims s = Some s1 ->
+    run_fin St evaluate refine finish observe bf lf nf s1 = Some s2 -> lims <> [] ->
+    exists k z, run_fin St evaluate refine finish observe b3 lf k s = Some z /\ R s2 z.
+Proof. exact resume_chain_equals_uninterrupted_upto. Qed.
+Print Assumptions C14_resume_chain_equals_uninterrupted_upto.
+
+(* non-vacuity 1: the scenario of the seeded change C14r2 in the model.  State = number of refinement rounds; error 1/(k+1),
+   4k+5 points.  perform(tol=1/3) stops at k=2 by its tolerance; continue(tol=0, max=30) goes on to k=7 (33 points), which is
+   where perform(tol=0, max=30) ends - and NOT where the first leg stopped. *)
+Definition nv_observe (k : nat) : obs := mkObs (Q2Qc (1 # Pos.of_nat (S k))) 0%Qc (4 * Z.of_nat k + 5).
+Example C14_nonvacuous_tolerance_zero :
+  let a1 := mkArgs (Some (Q2Qc (1 # 3))) None None in
+  let a2 := mkArgs (Some 0%Qc) None (Some 30) in
+  let a3 := mkArgs (Some 0%Qc) (Some 1) (Some 30) in
+  (forall k : nat, (fun k => k) ((fun k => k) k) = (fun k => k) k) /\
+  resolve_perform a3 = resolve_continue a2 /\
+  run nat (fun k => k) S nv_observe (resolve_perform a1) 20 0%nat = Some 2%nat /\
+  run nat (fun k => k) S nv_observe (resolve_continue a2) 20 2%nat = Some 7%nat /\
+  run nat (fun k => k) S nv_observe (resolve_perform a3) 20 0%nat = Some 7%nat.
+Proof. split; [reflexivity|]. split; [reflexivity|]. split; [vm_compute; reflexivity|]. split; vm_compute; reflexivity. Qed.
+
+(* non-vacuity 2: three legs whose limits do not grow from leg to leg but all grow to the last one *)
+Example C14_nonvacuous_legs :
+  let l1 := mkLimits (Q2Qc (1 # 3)) 1 (Some 100) in        (* stops by tolerance at k = 2 *)
+  let l2 := mkLimits (Q2Qc (1 # 2)) 1 (Some 20) in         (* looser tolerance, smaller budget: stops at once *)
+  let l3 := mkLimits (Q2Qc (1 # 6)) 10 (Some 100) in       (* final limits: k = 5 *)
+  all_growb [l1; l2; l3] l3 = true /\ limits_growb l1 l2 = false /\
+  run_legs nat (fun k => k) S nv_observe [(l1, 20%nat); (l2, 20%nat); (l3, 20%nat)] 0%nat d_init
+    = option_map (fun sd => (5%nat, snd sd)) (run_legs nat (fun k => k) S nv_observe [(l1, 20%nat); (l2, 20%nat); (l3, 20%nat)] 0%nat d_init) /\
+  run nat (fun k => k) S nv_observe l3 60 0%nat = Some 5%nat /\
+  exists d, legs_on_stream [l1; l2; l3] (traj nat (fun k => k) S nv_observe 60 0%nat) d_init = Some (5%nat, d) /\
+            d_pts d = [5; 9; 13;  13;  13; 17; 21; 25].
+Proof.
+  split; [vm_compute; reflexivity|]. split; [vm_compute; reflexivity|]. split; [vm_compute; reflexivity|].
+  split; [vm_compute; reflexivity|]. eexists. split; [vm_compute; reflexivity|]. reflexivity.
+Qed.
+
+(* non-vacuity 3: the equivalence version is not vacuous: states (rounds, rounding noise), R ignores the noise,
+   evaluate_final_combi changes the noise, re-evaluation too; all hypotheses hold and the conclusion relates different states *)
+Example C14_nonvacuous_upto :
+  let ev := fun s : nat * Z => (fst s, snd s + 1) in
+  let rf := fun s : nat * Z => (S (fst s), snd s) in
+  let fin := fun s : nat * Z => (fst s, 0) in
+  let ob := fun s : nat * Z => nv_observe (fst s) in
+  let R := fun s t : nat * Z => fst s = fst t in
+  let l1 := mkLimits (Q2Qc (1 # 3)) 1 (Some 100) in
+  let l3 := mkLimits (Q2Qc (1 # 6)) 10 (Some 100) in
+  (forall s t, R s t -> R (ev s) (ev t)) /\ (forall s t, R s t -> R (rf s) (rf t)) /\
+  (forall lim s t, R s t -> stop_now lim (ob s) = stop_now lim (ob t)) /\
+  (forall s, R (ev (ev s)) (ev s)) /\ (forall s, R (fin (ev s)) (ev s)) /\
+  run_fin (nat * Z) ev rf fin ob true l1 20 (0%nat, 0) = Some (2%nat, 0) /\
+  run_fin (nat * Z) ev rf fin ob false l3 20 (2%nat, 0) = Some (5%nat, 4) /\
+  run_fin (nat * Z) ev rf fin ob false l3 20 (0%nat, 0) = Some (5%nat, 6).
+Proof.
+  cbv zeta. split; [intros s t H; exact H|]. split; [intros s t H; cbn [fst]; f_equal; exact H|].
+  split; [intros lim s t H; cbn beta; rewrite H; reflexivity|]. split; [intro s; reflexivity|]. split; [intro s; reflexivity|].
+  split; [vm_compute; reflexivity|]. split; vm_compute; reflexivity.
+Qed.
